@@ -187,6 +187,10 @@ class Node:
     def bbox_exact(self):
         return False
 
+    def vertex_dist(self, P, env):
+        """distance to the nearest vertex (corner) of a polygonal leaf; inf for smooth shapes"""
+        return np.full(len(P), np.inf)
+
     def desc(self):
         raise NotImplementedError
 
@@ -295,6 +299,12 @@ class Polygonal(Node):
         if self.kind == "triangle":
             return np.stack([o, a, b], 1)
         return np.stack([o, a, a + b - o, b], 1)
+
+    def vertex_dist(self, P, env):
+        d = np.full(len(P), np.inf)
+        for V in [self.verts(env, len(P))] + self.rings():
+            d = np.minimum(d, np.linalg.norm(P[:, None, :] - V, axis=2).min(1))
+        return d
 
     def rings(self):
         """hole rings of a polygon (constant), each (1, nv, 2)"""
@@ -436,6 +446,9 @@ class Bool(Node):
 
     def leaf_phis(self, P, env):
         return self.a.leaf_phis(P, env) + self.b.leaf_phis(P, env)
+
+    def vertex_dist(self, P, env):
+        return np.minimum(self.a.vertex_dist(P, env), self.b.vertex_dist(P, env))
 
     def member(self, P, env, tol, L):
         oka, _ = self.a.member(P, env, tol, L)
